@@ -239,6 +239,8 @@ def configs(tier, seed):
         out.append({'model': model, 'm': 1, 'n': 2, 'nx': 2, 'ny': 2, 'variant': 'kT', 'group': 'kT-jacobian-2x2:%s' % model, 'timeout_ms': 120000})
         out.append({'model': model, 'm': 2, 'n': 1, 'nx': 2, 'ny': 1, 'variant': 'kT', 'table': True, 'group': 'kT-per-point-table:%s' % model, 'timeout_ms': 120000})
         out.append({'model': model, 'm': 1, 'n': 2, 'nx': 1, 'ny': 2, 'variant': 'kT', 'group': 'kT-jacobian-1x2:%s' % model, 'timeout_ms': 120000})
+        # a per-point table on a SQUARE grid of integration points: the two point axes have the same length, only their order tells them apart
+        out.append({'model': model, 'm': 1, 'n': 1, 'nx': 2, 'ny': 2, 'variant': 'kT', 'table': True, 'group': 'kT-per-point-table-square-grid:%s' % model, 'timeout_ms': 120000})
         out.append({'model': model, 'm': 2, 'n': 1, 'nx': 1, 'ny': 1, 'variant': 'kT', 'laminate_offset': True, 'group': 'kT-jacobian-offset-laminate:%s' % model, 'timeout_ms': 120000})
         out.append({'model': model, 'm': 1, 'n': 2, 'nx': 1, 'ny': 1, 'variant': 'fint', 'laminate_offset': True, 'group': 'fint-gradient-offset-laminate:%s' % model})
         out.append({'model': model, 'm': 2, 'n': 1, 'nx': 2, 'ny': 1, 'variant': 'fint', 'group': 'fint-gradient-2x1:%s' % model})
